@@ -22,7 +22,8 @@ for f in sorted(glob.glob(os.path.join(ROOT, "seeded", "C*-*", "meta.json"))):
             first = r["first_violations"][0]
     caught += any_caught
     fe = m.get("first_evaluation")
-    rnd = 1 if int(name.split("-")[1]) <= 3 else (2 if int(name.split("-")[1]) <= 5 else 3)
+    k_ = int(name.split("-")[1])
+    rnd = 1 if k_ <= 3 else (2 if k_ <= 5 else (3 if k_ <= 7 else 4))
     if fe:
         fcaught = any(r_["caught"] for r_ in fe.get("checks", {}).values())
         fs = first_stats.setdefault(rnd, [0, 0])
